@@ -481,8 +481,14 @@ impl<'a> Unquote<'a> {
             if str_ref.find('\\').is_some() {
                 Cow::from(self.to_string())
             } else {
-                // String is quoted but has no escapes.
-                Cow::from(&str_ref[1..str_ref.len() - 1])
+                // String is quoted but has no escapes: the content runs up
+                // to the closing quote, or to the end if there is none.
+                let content = match self.state {
+                    UnquoteState::NotStarted => &str_ref[1..],
+                    _ => str_ref,
+                };
+                let end = content.find('"').unwrap_or(content.len());
+                Cow::from(&content[..end])
             }
         } else {
             Cow::from(str_ref)
